@@ -61,6 +61,60 @@ CLAIMS = {
    design="§3 E1, §4 C07"),
 }
 
+NARROW = " This check decides named structural NECESSARY conditions of the property, not the behaviour itself; the behavioural remainder listed in the evidence explanation is not decided by this technique."
+CLAIMS.update({
+ "C01": dict(
+   technique="static analysis: def-use provenance (must-pass-through / must-not-pass / operand order) on go/ssa, PURE-READ effect summaries, and exact bit-lane maps for UTF-16LE and the 7-to-8-byte DES key spreading",
+   text="Decided: reading an MD4 digest writes none of the running state (so later reads/writes are unaffected); NT/DCC/DCC2/LM and every hex/hashcat wrapper are the mandated compositions on every def-use path (UTF-16LE of the password as supplied into MD4; NT hash then UTF-16LE(lower(user)); PBKDF2 with the same salt value, the rounds parameter, 16 bytes, SHA-1; upper-case, 14-byte pad, halves [0:7],[7:14], the KGS!@#$% constant, result order); EncodeUTF16LE/DecodeUTF16LE are inverse byte-lane maps; the 56 key bits land in bits 7..1 of the 8 DES key bytes. NOT decided: equality with RFC 1320 / MS-NLMP reference outputs, MD4 round and padding arithmetic, invariance under write splitting, DES/PBKDF2 numerics." ,
+   note=TRUST + NARROW + " Additional for C01: unicode/utf16, crypto/des, pbkdf2, sha1 are trusted to be what their names say.",
+   design="§3 E5/E4/E2, §4 C01"),
+ "C02": dict(
+   technique="static analysis: def-use provenance and same-value rules on go/ssa for the DESL chains, NTOWFv2 identity, proof/blob identity, blob layout extraction, and hashcat argument provenance",
+   text="Decided: each of the three NTLMv1 entry points is three ParityAdjust→DES→Encrypt(server challenge) chains over key windows [0:7],[7:14],[14:21] of the zero-padded hash, concatenated in order, with the right hash source, and the siblings agree; at the NTOWFv2 sites the user passes ToUpper and the domain does not (or, inside the SMB client, is the very value sent on the wire), user before domain, keyed by the NT hash; the bytes MAC'd after the server challenge are the same SSA value appended after the proof; the blob layout is 01 01 00×6 | timestamp(8, LE) | client challenge | 00×4 | target info with the supplied client challenge; the hashcat line's five arguments are user, domain, hex(server challenge), hex(response[:16]), hex(response[16:]). NOT decided: DES/HMAC/MD5 numerics, ParityAdjust bit arithmetic, AV-pair well-formedness, timestamp values.",
+   note=TRUST + NARROW,
+   design="§3 E5, §4 C02, Appendix A"),
+ "C08": dict(
+   technique="static analysis: value-carrying byte-stream extraction of the NTLMSSP builders from go/ssa, symbolic descriptor arithmetic over len(payload) forms, E1 narrowing proofs, charset provenance, decoder lane maps, and SPNEGO length-framing structure",
+   text="Decided for all field values at once: signature and message type constants, every fixed field at its MS-NLMP offset and little-endian, header size = sum of fixed atoms = payload start; for each descriptor Len = MaxLen = len(payload) without truncation (E1), Offset = header size + the symbolic sum of the payloads appended before it, each payload designated by exactly one descriptor and appended once; names derive through EncodeUTF16LE exactly on the Unicode branch of the negotiated flag; ParseChallengeMessage reads the CHALLENGE fields at their offsets and slices each descriptor by the very values its guard tested; ParseTargetInfo walks AvId/AvLen/value to MsvAvEOL; encodeLength and the GSS header/skip logic mirror each other. NOT decided: DER round trip through encoding/asn1 for all token lengths (library semantics), numeric content of the responses.",
+   note=TRUST + " Additional for C08: encoding/asn1 is trusted; the MS-NLMP layout tables are transcribed in the checker.",
+   design="§4 C08, Appendix B"),
+ "C09": dict(
+   technique="static analysis: wire-layout extraction (encoder backwards from the returned slice, decoder forwards from every input read) compared per atom, guard/length/section/name-constant rules with E1 proofs",
+   text="Decided: question, resource-record and header encoders and decoders agree atom by atom and are big-endian on both sides; decoder reads are contiguous and each guard constant equals the end of what it protects; RDLENGTH is len(RData) on encode and the width of the RData read on decode; for each of the four (count, section) pairs the count is written from len(section), the section's elements are emitted, the count is read and a loop bounded by it fills that section, in RFC order; the label length byte is proven <= 63 under the encoder's guard, the 0xC0 / 0x3FFF / 63 / 255 constants are used consistently, and the compression pointer is proven strictly backwards at the recursive call. NOT decided: agreement with an independent RFC 1035 codec (name length on decode, label types, root-name text form).",
+   note=TRUST + NARROW,
+   design="§4 C09"),
+ "C10": dict(
+   technique="static analysis: wire-layout extraction for NBNS packets (including the closure and the loop over the slice of sections) and exact bit-lane maps for first-level name encoding",
+   text="Decided: the six header words and every question/record atom agree between Marshal and Unmarshal, big-endian both ways, all four sections written and read in RFC order with counts taken from the section lengths; name and RDATA extents equal their length fields and the narrowing of the name length to a byte is lossless under a guard; FirstLevelEncode places the high and low nibble of name[i] plus 'A' at bytes 2i and 2i+1 and FirstLevelDecode reassembles (hi<<4)|lo from the same positions with the same constant, sizes 16/32, pad ' ' matching the trim set. NOT decided: conformance of the name field to RFC 1002 (no terminating root label — observed, not ruled), names ending in spaces, scope syntax.",
+   note=TRUST + NARROW,
+   design="§4 C10"),
+ "C12": dict(
+   technique="static analysis: who-writes / PURE-READ effect tables for CMAC and RC4 state on go/ssa, and def-use provenance of the GPP encrypt/decrypt chains with constant-table comparison of the AES key",
+   text="Decided: cmac.Sum writes only its scratch digest, Reset writes exactly the running-state fields to zero, Write is the only other writer; RC4 state is written only by the constructor, Reset and XORKeyStream; GPPPEncrypt is EncodeUTF16LE → pkcs7.Pad(aes.BlockSize) → CBC-encrypt under GPPP_AES_KEY with a fresh zero IV → base64 and GPPPDecryptBytes is the mirror with the same key variable, which equals the 32 bytes published in MS-GPPREF and is never written; a dominating block-multiple guard precedes CryptBlocks. NOT decided: RC4/CMAC/PKCS#7/AES numerics, chunking invariance, completeness of padding rejection.",
+   note=TRUST + NARROW,
+   design="§4 C12"),
+ "C13": dict(
+   technique="static analysis: abstract interpretation of go/ssa over the bit-lane domain (integers as lane vectors, strings as sequences of literal bytes and hex digits) for GUID/UUID binary and text codecs, plus format-versus-regex structural comparison",
+   text="Decided for all 2^128 values at once, because only bit movement is involved: GUID ToBytes/FromRawBytes equal the MS-DTYP mixed-endian layout and are mutual inverses; for each of N/D/B/P/X the ToFormat output shape equals its regex constant position by position, the 32 digits carry the 128 bits exactly once, and each FromFormat parser accepts that shape, consumes every digit exactly once with bit sizes matching the destination fields, and is the inverse bit map of the formatter; inputs are trimmed and lower-cased before validation; UUID, v1, v2, v8 Marshal/Unmarshal are inverse bit maps with version and variant nibbles in bytes 6 and 8, and the String/FromString slicing is the 8-4-4-4-12 table. Field bits that do not fit are reported as domain restrictions. NOT decided: v1/v2 timestamp arithmetic (C15), RFC 4122 field split beyond the nibbles.",
+   note=TRUST + " Additional for C13: strconv.ParseUint, fmt %0Nx and regexp are trusted to have their documented meaning.",
+   design="§3 E2 bit lanes, §4 C13"),
+ "C14": dict(
+   technique="static analysis: entry-type table agreement, entry-header and BCRYPT_RSAKEY_BLOB layout extraction, threshold agreement of the CustomKeyInformation siblings via E1, control-dependence of CheckIntegrity, and separator/field-count rules for DNWithBinary",
+   text="Decided: every entry type ToBytes writes is handled by FromBytes with the same field, the entry header is len(2, LE) | type | data on all three walkers, ComputeKeyHash covers exactly what follows the KeyHash entry, each CustomKeyInformation field is encoded under the size condition under which it is decoded, the RSA blob header lanes and big-endian exponent agree both ways, CheckIntegrity can return true only after comparing lengths and every byte, and DNWithBinary.Parse keeps separators inside its last field. NOT decided: that altering any covered bit is detected (SHA-256 semantics), whole-credential re-serialisation equality.",
+   note=TRUST + NARROW,
+   design="§4 C14"),
+ "C16": dict(
+   technique="static analysis: bit-lane map of the binary SID reads, string-template abstraction of the text construction evaluated for every sub-authority count 0..15, and structural rules for the DN walk",
+   text="Decided: revision, count, the 48-bit big-endian authority and each 32-bit little-endian sub-authority are read from their MS-DTYP offsets; no early exit is feasible for a well-formed SID; for each count 0..15 the produced template is S-<rev>-<authority> followed by exactly count '-<decimal>' elements; the domain derivation decomposes the DN with an escape-aware parser, keeps exactly the DC components' values in order and joins them with '.'. NOT decided: fmt's %d rendering, the hexadecimal authority form for values >= 2^32, what ParseDN accepts.",
+   note=TRUST + NARROW,
+   design="§4 C16"),
+ "C20": dict(
+   technique="static analysis: validated-value consistency on the go/ssa def-use graph, printer-template versus parser-access-path agreement (separators, arity, field/verb/base/bit-size), and dependency rules for subnet/range predicates",
+   text="Decided: in every parser a value consumed after validation is the very value that was validated (same normaliser chain); for IPv4, IPv6 and port ranges each field the parser reads is the field the printer prints at that position, with every emitted separator consumed and the part counts agreeing; IsInSubnet depends on both addresses and on the prefix length, IsInRange on all address fields. NOT decided: mask and comparison arithmetic, IPv6 compressed/zone text forms, what the regular expressions accept. One known finding: IPv6.IsInSubnet is plain equality because the type has no prefix length (API extension needed).",
+   note=TRUST + NARROW,
+   design="§4 C20"),
+})
+
 m = {
  "version": 1,
  "setup_cmd": "./setup.sh",
